@@ -234,3 +234,7 @@ UNITS.append(_dataclass_unit("C08"))
 
 from contracts.share import carried as _carried  # noqa: E402
 UNITS += _carried("C08")
+
+# class specs inside a list / mapping of an Any-typed value are adapted in a copy (an OrderedDict given by the caller is not copied by the parse methods)
+from contracts.any_units import adapt_classes_any_unit as _aca_any_unit  # noqa: E402
+UNITS.append(_aca_any_unit("C08"))
